@@ -99,7 +99,8 @@ theorem outside_preserved_mod_escape (inp : Bytes) (known : Bytes → Bool) (ue 
     EscDel inp (source (segments inp known ue eu)) := by
   have := segLoop_source inp known ue eu (inp.length + 1) 0 0 0
     ⟨Nat.le_refl 0, Nat.zero_le _, fun _ h => absurd h (Nat.lt_irrefl 0)⟩ h
-  simpa using this
+  rw [List.drop_zero] at this
+  exact this
 
 -- non-vacuity: "\{a}{b}" — the escaping backslash goes, `{b}` is substituted, `{a}` stays text
 example : segments [92, 123, 97, 125, 123, 98, 125] (dom exEnv0) false false
